@@ -66,6 +66,87 @@ def simulate(work, cfg, n, depth, seed, mechs):
     return traces
 
 
+def federated_part(res, work, tier, seed, binary, known):
+    """KMFederated: the OAuth2 web login (the 'federated' factor) - redirect cookie / state binding, one-time use,
+    expiry by the periodic sweep - bound to the real handlers with the fake provider."""
+    cov = res.cov
+    E.tlc_mc(work, "KMFederated", "MC_KMFederated.cfg", cov, timeout=900)
+    for flag in ("StateNotCompared", "EntryNotConsumed"):
+        r = E.tlc(work, "KMFederated", "Neg_KMFederated_%s.cfg" % flag, timeout=300, tag="neg-fed-" + flag)
+        if not r["violated"]:
+            raise E.Inconclusive("negative control Neg_KMFederated_%s found no violation" % flag)
+    def st(op, **a):
+        return {"op": op, "args": a}
+    B, CB = (lambda b: st("begin", b=b)), (lambda b, c, s, code: st("callback", b=b, c=c, s=s, code=code))
+    TICK, SWEEP = st("tick", d=1), st("sweep", d=0)
+    cases = [
+        {"origin": "happy", "steps": [B("b1"), CB("b1", 1, 1, "alice")]},
+        {"origin": "replay", "steps": [B("b1"), CB("b1", 1, 1, "alice"), CB("b1", 1, 1, "alice")]},
+        {"origin": "cross-state", "steps": [B("b1"), B("b2"), st("leakstate", f="b1", t="b2", i=1), CB("b2", 2, 1, "mallory"), CB("b2", 2, 2, "mallory")]},
+        {"origin": "login-csrf", "steps": [B("b1"), B("b2"), st("plantcode", f="b2", t="b1"), st("leakstate", f="b2", t="b1", i=2),
+                                           CB("b1", 1, 2, "mallory"), CB("b1", 0, 2, "mallory"), CB("b1", 1, 1, "alice")]},
+        {"origin": "no-cookie", "steps": [B("b1"), CB("b1", 0, 1, "alice"), CB("b1", 0, 0, "alice"), CB("b1", 1, 0, "alice"), CB("b1", 1, 1, "alice")]},
+        {"origin": "bad-code-then-good", "steps": [B("b1"), CB("b1", 1, 1, "none"), CB("b1", 1, 1, "alice")]},
+        {"origin": "expired-unswept", "steps": [B("b1"), TICK, CB("b1", 1, 1, "alice")]},
+        {"origin": "expired-swept", "steps": [B("b1"), B("b2"), TICK, TICK, SWEEP, CB("b1", 1, 1, "alice"), B("b1"), CB("b1", 3, 3, "alice")]},
+        {"origin": "sweep-keeps-young", "steps": [B("b1"), TICK, TICK, B("b2"), SWEEP, CB("b2", 2, 2, "mallory"), CB("b1", 1, 1, "alice")]},
+    ]
+    n, depth = (150, 14) if tier == "quick" else (1500, 20)
+    args = ["-simulate", "file=sim/t,num=%d" % n, "-depth", str(depth), "-seed", str(seed)]
+    r = E.tlc(work, "Gen_KMFederated", "Gen_KMFederated.cfg", workers=1, timeout=900, tag="sim-fed", args=args)
+    files = sorted(glob.glob(os.path.join(r["dir"], "sim", "t_*")))
+    if not files:
+        os.makedirs(os.path.join(r["dir"], "sim"), exist_ok=True)
+        r = E.tlc(work, "Gen_KMFederated", "Gen_KMFederated.cfg", workers=1, timeout=900, tag="sim-fed", args=args)
+        files = sorted(glob.glob(os.path.join(r["dir"], "sim", "t_*")))
+    for f in files:
+        steps = [json.loads(json.loads(m.group(1))) for m in re.finditer(r'^/\\ actj = (".*")$', open(f).read(), re.M)]
+        steps = [x for x in steps if x]
+        if steps:
+            cases.append({"origin": "simulate", "steps": steps})
+    if len(cases) < 20:
+        raise E.Inconclusive("federated login: simulation produced no behaviours:\n" + r["out"][-1500:])
+    cp = work.path("fed-cases.ndjson")
+    E.write_ndjson(cp, cases)
+
+    def execute(path, tag):
+        ep, _ = E.run_harness(binary, "C05fed", work, cases=path, events=work.path("events-fed-%s.ndjson" % tag))
+        return E.read_ndjson(ep), E.monitor(work, "Trace_KMFederated", "Trace_KMFederated.cfg", ep, cov, tag="Trace_KMFederated-" + tag)
+    evs, devs = execute(cp, "all")
+    granted = sum(1 for e in evs if e["ev"] == "callback" and e["out"]["ok"])
+    refused = sum(1 for e in evs if e["ev"] == "callback" and not e["out"]["ok"])
+    cov["federated_behaviours"] = len(cases)
+    cov["federated_callbacks_granted"] = granted
+    cov["federated_callbacks_refused"] = refused
+    cov["federated_sweeps"] = sum(1 for e in evs if e["ev"] == "sweep")
+    cov["traces_validated_against_impl"] += len(cases)
+    if granted < 10 or refused < 10:
+        raise E.Inconclusive("federated login: dead driver (granted %d, refused %d callbacks)" % (granted, refused))
+    by = {}
+    for d in devs:
+        ev = evs[d["line"] - 1]
+        by.setdefault(ev["trace"], []).append((d, ev))
+    if by:
+        order = sorted(by)
+        cp2 = work.path("fed-confirm.ndjson")
+        E.write_ndjson(cp2, [cases[t] for t in order])
+        evs2, devs2 = execute(cp2, "confirm")
+        again = {(order[evs2[d["line"] - 1]["trace"]], evs2[d["line"] - 1]["i"] - min(e["i"] for e in evs2 if e["trace"] == evs2[d["line"] - 1]["trace"]),
+                  tuple(d["guards"])) for d in devs2}
+        for t in order:
+            base = min(e["i"] for e in evs if e["trace"] == t)
+            for d, ev in by[t]:
+                if (t, ev["i"] - base, tuple(d["guards"])) not in again:
+                    res.notes.append("federated deviation in behaviour %d did not reproduce; ignored" % t)
+                    continue
+                a = ev["args"]
+                sig = {"action": "Federated:" + ev["ev"], "guards": [g for g in d["guards"] if g.startswith("G_C05_") or g == "G_C10_NoPanic"]}
+                if ev["ev"] == "callback":
+                    sig.update({"own_cookie": a["c"] != 0, "state_of_cookie": a["s"] == a["c"], "code": a["code"] != "none"})
+                if res.classify(sig, {"behaviour": cases[t], "event": ev}, known) == "violation":
+                    res.sample({"deviation": d, "event": ev, "origin": cases[t]["origin"]})
+
+
 def run(tier, seed, work, replay):
     res = E.Result(PROP, tier, seed)
     cov = res.cov
@@ -208,6 +289,7 @@ def run(tier, seed, work, replay):
                           "origin": traces[t]["origin"]}
                 if res.classify(sig, detail, known) == "violation":
                     res.sample({"deviation": d, "event": ev})
+    federated_part(res, work, tier, seed, binary, known)
     res.assumptions = ["fakes define ground truth (VIP service, software U2F tokens, TOTP secrets, who approved which push)",
                        "time: TOTP steps and expiries are advanced by ageing stored state (shift-equivalent for every "
                        "'stored instant vs now' comparison)", "TLC + Json"]
